@@ -20,12 +20,14 @@
   by generate_bot_message) for one LLM text, one chunking and one schedule; `stopFirst`
   (= `Generated.C18.stopBeforeDisable`) says whether `.stop` is assigned before `disable_buffering()`.
 
-  Data-level simplifications (tied by the differential check): `buffer.split("\n")` / `strip()` /
-  `"\n".join(lines[i+1:])` are modelled by the character scans `qualCount` and `dropTopK`
-  (whitespace = ASCII space, \t, \n, \r, \x0b, \x0c); the value RETURNED by
-  `wait_top_k_nonempty_lines` (the first k lines, consumed by the intent parser) is not modelled.
+  `qualCount` / `dropTopK` are character scans; the line-by-line code of `_process` (event condition) and
+  `wait_top_k_nonempty_lines` (`split("\n")`, `strip()`, the loop, `"\n".join`) is mirrored by `splitNl`,
+  `strip`, `lineQual`, `scanTop`, `joinNl` below, and `Lemmas/StreamTopK.lean` proves the scans equal to it
+  (`qualCount_eq_lines`, `dropTopK_eq_lines`).  `returned` = the value `wait_top_k_nonempty_lines` returns
+  (consumed by the intent parser).  Whitespace = Python's `str.isspace` table (`Generated.C18.wsCodes`).
 -/
 import NemoVerif.Models.Stream
+import NemoVerif.Generated.C18
 namespace NemoVerif.StreamUsage
 open NemoVerif.Stream
 
@@ -50,7 +52,9 @@ def H0 : H :=
 /-- the configuration the pattern machine currently runs with (`cfg.pfx` is not read by `push`) -/
 def cfgOf (h : H) : Cfg := { pfx := [], suffix := h.suffix, stop := h.stop }
 
-def isWs (c : Char) : Bool := c = ' ' || c = '\t' || c = '\n' || c = '\r' || c = '\x0b' || c = '\x0c'
+/-- what `str.strip()` removes: the code points with `str.isspace()` — the table is regenerated from the running
+    CPython by the translator (`Generated.C18.wsCodes`; pinned by `C18.ws_table_pinned`) -/
+def isWs (c : Char) : Bool := NemoVerif.Generated.C18.wsCodes.contains c.toNat
 
 /-- first non-whitespace character seen so far on the current line -/
 def noteChar (first : Option Char) (c : Char) : Option Char :=
@@ -204,6 +208,67 @@ def usageRun (fx stopFirst : Bool) (site : Site) (cs : List Str) (a b endPos : N
 /-- the event was set when the waiter resumed (validity of a schedule) -/
 def eventSetAt (fx : Bool) (site : Site) (cs : List Str) (a : Nat) : Bool :=
   (execOps fx ([Op.enableBuf, Op.waitBegin site.k] ++ (cs.take a).map Op.token) H0).topk
+
+/-! ### `wait_top_k_nonempty_lines` / the event condition of `_process`, line by line as in the source -/
+
+/-- `s.split("\n")` -/
+def splitNl : Str → List Str
+  | [] => [[]]
+  | c :: t =>
+    if c = '\n' then [] :: splitNl t
+    else match splitNl t with
+      | l :: ls => (c :: l) :: ls
+      | [] => [[c]]
+
+/-- `"\n".join(lines)` -/
+def joinNl : List Str → Str
+  | [] => []
+  | [l] => l
+  | l :: m :: ls => l ++ '\n' :: joinNl (m :: ls)
+
+/-- `line.strip()` -/
+def strip (l : Str) : Str := ((l.dropWhile isWs).reverse.dropWhile isWs).reverse
+
+/-- `line = lines[i].strip(); len(line) > 0 and line[0] != "#"` -/
+def lineQual (l : Str) : Bool :=
+  match strip l with
+  | [] => false
+  | c :: _ => c != '#'
+
+/-- the loop of `wait_top_k_nonempty_lines(k)` (k > 0) over `lines`: (`top_k_lines`, `lines[i + 1:]`) -/
+def scanTop : Nat → List Str → List Str × List Str
+  | _, [] => ([], [])
+  | k, l :: ls =>
+    if lineQual l then
+      if k ≤ 1 then ([l], ls) else (l :: (scanTop (k - 1) ls).1, (scanTop (k - 1) ls).2)
+    else scanTop k ls
+
+/-- the value `wait_top_k_nonempty_lines(k)` returns for the buffer `buf` -/
+def returned (k : Nat) (buf : Str) : Str := joinNl (scanTop k (splitNl buf)).1
+
+/-- the buffer `wait_top_k_nonempty_lines(k)` leaves behind -/
+def restBuffer (k : Nat) (buf : Str) : Str := joinNl (scanTop k (splitNl buf)).2
+
+/-- `len([line for line in (l.strip() for l in buffer.split("\n")) if len(line) > 0 and line[0] != "#"])` -/
+def qualLines (buf : Str) : Nat := ((splitNl buf).filter lineQual).length
+
+/-- what the waiter of `wait_top_k_nonempty_lines` returns when it resumes after `a` tokens -/
+def waiterReturn (fx : Bool) (site : Site) (cs : List Str) (a : Nat) : Str :=
+  returned site.k (execOps fx ([Op.enableBuf, Op.waitBegin site.k] ++ (cs.take a).map Op.token) H0).buffer
+
+/-- names of the handler operations of an op sequence (tokens / on_llm_end are the LLM task's, not the actions') -/
+def opNames : List Op → List String
+  | [] => []
+  | .enableBuf :: r => "enable_buffering" :: opNames r
+  | .waitBegin _ :: r => "wait_top_k_nonempty_lines" :: opNames r
+  | .waitResume :: r => opNames r
+  | .setPattern _ _ :: r => "set_pattern" :: opNames r
+  | .setStop _ :: r => "stop=" :: opNames r
+  | .setPipe :: r => "set_pipe_to" :: opNames r
+  | .disableBuf :: r => "disable_buffering" :: opNames r
+  | .token _ :: r => opNames r
+  | .push _ :: r => "push_chunk" :: opNames r
+  | .llmEnd :: r => opNames r
 
 /-- the direct mode of generate_bot_message: set_pattern on the user's handler, the LLM streams into
     it, on_llm_end, then the whole utterance is pushed once more (ignored: the stream is finished) -/
